@@ -752,6 +752,26 @@ ProgSpace ==
          <<Def("A", TRUE, <<"x">>, <<"x">>), Def("B", FALSE, <<>>, <<"A">>)>> \o Text(<<"B">>) \o <<Undef("B")>>,
          <<Def("G", TRUE, <<"x">>, <<"x", ")">>), Def("Q", FALSE, <<>>, <<"g", "~(", "G">>), Def("g", TRUE, <<"a">>, <<"[", "a", "]">>)>>
             \o Text(<<"Q", "(", "~1", "~)", "2", ")">>) }
+    [] Space = "redef2" -> \* define -> USE -> redefine: ctxpush overwrites the space flag of the first replacement token with the
+                           \* spacing of the invocation, and white space in front of the replacement list is not part of it
+                           \* (6.10.3p2/p7): the first token never takes part in the comparison; interior white space does
+       LET T(k, sp, str) == Tk(k, str, sp)
+           ObjDefs == {Def("A", FALSE, <<>>, <<"(", "1", ")">>), Def("A", FALSE, <<>>, <<"(", "~1", ")">>), Def("A", FALSE, <<>>, <<"(", "2", ")">>)}
+           FnBody(sp1, sp2) == <<Tk("p", "(", sp1), Tk("id", "x", sp2), Tk("p", ")", TRUE)>>
+           FnDefs == {Line("def", "A", TRUE, <<"x">>, FnBody(TRUE, TRUE)), Line("def", "A", TRUE, <<"x">>, FnBody(FALSE, TRUE)),
+                      Line("def", "A", TRUE, <<"x">>, FnBody(TRUE, FALSE)), Line("def", "A", TRUE, <<"y">>, <<Tk("p", "(", TRUE), Tk("id", "y", TRUE), Tk("p", ")", TRUE)>>)}
+           Arg(fn) == IF fn THEN <<Tk("p", "(", FALSE), Tk("num", "5", FALSE), Tk("p", ")", FALSE)>> ELSE <<>>
+           Uses(fn) == {<<>>,
+                        <<<<Tk("id", "A", FALSE)>> \o Arg(fn)>>,                                      \* name in column 0
+                        <<<<Tk("id", "q", FALSE), Tk("id", "A", TRUE)>> \o Arg(fn)>>,                  \* after a blank
+                        <<<<Tk("id", "q", FALSE), Tk("p", "[", FALSE), Tk("id", "A", FALSE)>> \o Arg(fn) \o <<Tk("p", "]", FALSE)>>>>,
+                        <<<<Tk("id", "q", FALSE), Tk("p", "=", TRUE), Tk("id", "A", FALSE)>> \o Arg(fn) \o <<Tk("p", ";", FALSE)>>>>,
+                        <<<<Tk("p", "(", FALSE), Tk("id", "A", FALSE)>> \o Arg(fn) \o <<Tk("p", ")", FALSE)>>,
+                          <<Tk("id", "r", FALSE), Tk("id", "A", TRUE)>> \o Arg(fn)>>}                  \* two uses, the last after a blank
+           Hist(defs, fn) == {<<d1>> \o [i \in 1..Len(u) |-> Line("text", "", FALSE, <<>>, u[i])] \o <<d2>>
+                                \o <<Line("text", "", FALSE, <<>>, <<Tk("id", "A", TRUE)>> \o Arg(fn))>> :
+                              d1 \in defs, u \in Uses(fn), d2 \in defs}
+       IN Hist(ObjDefs, FALSE) \cup Hist(FnDefs, TRUE)
     [] Space = "redef" -> \* #define / #undef histories of one name, then a use
        LET cand == {Def("A", FALSE, <<>>, <<"(", "1", ")">>), Def("A", FALSE, <<>>, <<"(", "~1", "~)">>),
                     Def("A", FALSE, <<>>, <<"(", "2", ")">>), Def("A", FALSE, <<>>, <<"(", "1">>),
@@ -812,7 +832,7 @@ GenInv(P, names, d, name, r, r2, r3) ==
      \o GenArgs(P, names, d, n, 1, <<>>) \o <<IF r3 % 3 = 0 THEN "~)" ELSE ")">>
 GenAtom(P, names, d, r, r2) ==
   IF r <= 35 THEN <<PickFrom(PlainSyms, r2)>>
-  ELSE IF r <= 60 \/ d = 0 THEN <<PickFrom(names, r2)>>
+  ELSE IF r <= 60 \/ d = 0 THEN <<(IF r2 % 4 = 0 THEN "~" ELSE "") \o PickFrom(names, r2)>>   \* "~": no blank before the name
   ELSE IF r <= 65 THEN <<"NL">>
   ELSE IF r <= 68 THEN <<"(", PickFrom(PlainSyms, r2), ")">>
   ELSE GenInv(P, names, d - 1, PickFrom(names, r2), R(100), R(1000), R(100))
